@@ -1,34 +1,511 @@
-"""Case analysis of the partial-evaluation kernels: for each Some/None combination of the
-"is this variable fixed?" probes, the set of effects on the way back to the loop header."""
-from .common import *
+"""Shared analysis of the partial-evaluation kernels (C03, re-decided by C10).
 
-STATE_GET = r'HashMap::<u64, f64>::get'
+Three layers, all working on the normal form (`VIEW = 'norm'`) of one body:
+
+ 1. `lnorm`    – a *local* normal form on top of sa.normalize: Option / bool combinators that take a
+                 closure (`opt.map(f)`, `opt.map_or(d, f)`, `c.then(f)`, `it.partition(p)`, ...) are
+                 rewritten as the `match` / loop they abbreviate, closure bodies spliced in.  The
+                 rules then see the same control flow for `if let Some(x) = o { f(x) }` and
+                 `o.map(f)`.
+ 2. `walk`     – path-sensitive forward reachability: the walker keeps the variants it knows
+                 (`Some`/`None`, `Ok`/`Err`, `Continue`/`Break`, bool constants) of locals along the
+                 path and follows only the matching arm of a switch on them.  Used for the case
+                 regions of the "is this variable fixed?" probes and for error flow through several
+                 levels of `?`.
+ 3. effects    – what a region does, in terms of labelled dataflow facts (fold into the constant,
+                 accumulate into the map entry of an id, report an id, remove the entry, keep an
+                 id), with a table of equivalent idioms per effect.
+"""
+import itertools
+from .common import *
+from ..facts import Body
+from ..normalize import (Rewriter, Normalizer, mk_call, _mv, _cp, _pl, _use, _discr, _agg, _const, _ref, SOME0)
+
 KNOWN = ('rows', 'columns', 'values', 'id', 'coefficient', 'ids', 'constant', 'terms', 'linear')
 
 
-def label(body, e, probes=None):
+# =================================================================================================
+# 1. local normal form
+# =================================================================================================
+# combinator (def path without generic arguments) -> what it abbreviates
+COMBINATORS = {
+    'std::option::Option::<T>::map':            'opt_map',          # match o { Some(x) => Some(f(x)), None => None }
+    'std::option::Option::<T>::map_or':         'opt_map_or',       # match o { Some(x) => f(x), None => d }
+    'std::option::Option::<T>::map_or_else':    'opt_map_or_else',  # match o { Some(x) => f(x), None => g() }
+    'std::option::Option::<T>::and_then':       'opt_and_then',     # match o { Some(x) => f(x), None => None }
+    'std::option::Option::<T>::unwrap_or_else': 'opt_unwrap_or_else',  # match o { Some(x) => x, None => g() }
+    'std::option::Option::<T>::is_some_and':    'opt_is_some_and',  # match o { Some(x) => f(x), None => false }
+    'core::bool::<impl bool>::then':            'bool_then',        # if c { Some(f()) } else { None }
+    'std::iter::Iterator::partition':           'partition',        # for x in it { if p(&x) { a.push(x) } else { b.push(x) } }
+}
+
+
+def _closure_of(F, rw, op):
+    if op['k'] not in ('copy', 'move') or op['pl']['p']: return None
+    d = rw.single_def(op['pl']['l'])
+    if d is None or d[0] != 'stmt': return None
+    rv = d[2]['rv']
+    if rv['k'] == 'use' and rv['ops'][0]['k'] in ('copy', 'move') and not rv['ops'][0]['pl']['p']:
+        return _closure_of(F, rw, rv['ops'][0])
+    if rv['k'] != 'agg' or not rv['adt'].startswith('closure:'): return None
+    cb = F.bodies.get(rv['adt'][8:])
+    if cb is None: return None
+    return cb.d, rv['ops']
+
+
+def _payload(op, proj):
+    return {'k': 'move', 'pl': {'l': op['pl']['l'], 'p': list(op['pl']['p']) + proj}}
+
+
+# element-wise copies between a closure adaptor and the consumer: `it.filter(p).cloned().collect()` visits the
+# same elements as `it.filter(p).collect()`; sa.normalize only looks at adaptors directly below the consumer
+COPY_ADAPTORS = ('std::iter::Iterator::cloned', 'std::iter::Iterator::copied')
+
+
+def _see_through_copies(F, rw, N):
+    """drop `.cloned()` / `.copied()` standing between a closure adaptor and a consumer, then let
+    sa.normalize rewrite the consumer as a loop"""
+    from ..normalize import CLOSURE_ADAPTORS, CONSUMERS
+    for bi, blk in enumerate(rw.blocks):
+        t = blk['term']
+        if blk['cleanup'] or t['k'] != 'call' or t['t'] < 0 or (t.get('rp') or t.get('fp')) not in COPY_ADAPTORS: continue
+        a = t['args'][0]
+        if a['k'] not in ('copy', 'move') or a['pl']['p'] or t['dst']['p']: continue
+        d = rw.single_def(a['pl']['l'])
+        if d is None or d[0] != 'call' or ((d[2].get('ri') or {}).get('item') not in CLOSURE_ADAPTORS) or (d[2].get('ri') or {}).get('trait') != 'std::iter::Iterator': continue
+        users = [b2['term'] for b2 in rw.blocks if b2['term']['k'] == 'call' and any(x['k'] in ('copy', 'move') and x['pl']['l'] == t['dst']['l'] for x in b2['term']['args'])]
+        if len(users) != 1 or (users[0].get('ri') or {}).get('item') not in CONSUMERS + ('from_iter', 'extend', 'into_iter'): continue
+        blk['st'].append(_use(t['dst'], a, (t.get('span') or {}).get('lo', 0)))
+        rw.goto(bi, t['t'])
+        users[0].pop('desugared', None)
+        rw.changed = True
+        for _ in range(10):
+            if not N._desugar_one(rw): break
+        return True
+    return False
+
+
+def _lnorm_one(F, rw, N):
+    ENV = _const('()', 'env')
+    if _see_through_copies(F, rw, N): return True
+    for bi, blk in enumerate(rw.blocks):
+        if blk['cleanup']: continue
+        t = blk['term']
+        if t['k'] != 'call' or t.get('lnormed') or t['t'] < 0: continue
+        kind = COMBINATORS.get(t.get('rp') or t.get('fp') or '')
+        if kind is None: continue
+        t['lnormed'] = True
+        a = t['args']; dst = t['dst']; after = t['t']; span = t.get('span'); line = (span or {}).get('lo', 0)
+        B = rw.blocks
+        if not a or a[0]['k'] not in ('copy', 'move'): continue
+        cls = [_closure_of(F, rw, x) for x in a[1:]]
+        def spl(ci, args, d, cont):
+            return rw.splice(ci[0], [ENV] + args, d, cont, span, captures=ci[1])
+        def blk_(st): return rw.new_block(st, {'k': 'goto', 't': after})
+        def opt_switch(none_bb, some_bb):
+            dl = rw.new_local('isize')
+            B[bi]['st'].append(_discr(dl, a[0]['pl'], line))
+            B[bi]['term'] = {'k': 'switch', 'd': _mv(dl), 'ts': [[0, none_bb], [1, some_bb]], 'else': rw.new_block()}
+        some0 = _payload(a[0], SOME0)
+        if kind == 'bool_then':
+            if cls[0] is None: continue
+            r = rw.new_local(cls[0][0]['locals'][0])
+            some = blk_([_agg(dst, 'std::option::Option::Some', [_mv(r)], line=line)])
+            none = blk_([_agg(dst, 'std::option::Option::None', [], line=line)])
+            e = spl(cls[0], [], _pl(r), some)
+            B[bi]['term'] = {'k': 'switch', 'd': a[0], 'ts': [[0, none]], 'else': e}
+        elif kind == 'opt_map':
+            if cls[0] is None: continue
+            r = rw.new_local(cls[0][0]['locals'][0])
+            some = blk_([_agg(dst, 'std::option::Option::Some', [_mv(r)], line=line)])
+            none = blk_([_agg(dst, 'std::option::Option::None', [], line=line)])
+            opt_switch(none, spl(cls[0], [some0], _pl(r), some))
+        elif kind == 'opt_map_or':
+            if cls[1] is None: continue
+            none = blk_([_use(dst, a[1], line)])
+            opt_switch(none, spl(cls[1], [some0], dst, after))
+        elif kind == 'opt_map_or_else':
+            if cls[0] is None or cls[1] is None: continue
+            opt_switch(spl(cls[0], [], dst, after), spl(cls[1], [some0], dst, after))
+        elif kind == 'opt_and_then':
+            if cls[0] is None: continue
+            none = blk_([_agg(dst, 'std::option::Option::None', [], line=line)])
+            opt_switch(none, spl(cls[0], [some0], dst, after))
+        elif kind == 'opt_unwrap_or_else':
+            if cls[0] is None: continue
+            some = blk_([_use(dst, some0, line)])
+            opt_switch(spl(cls[0], [], dst, after), some)
+        elif kind == 'opt_is_some_and':
+            if cls[0] is None: continue
+            none = blk_([_use(dst, _const('bool', 'false'), line)])
+            opt_switch(none, spl(cls[0], [some0], dst, after))
+        elif kind == 'partition':
+            if cls[0] is None or a[0]['pl']['p']: continue
+            it = rw.new_local('?iter'); va = rw.new_local('std::vec::Vec<?>'); vb = rw.new_local('std::vec::Vec<?>')
+            B[bi]['st'].append(_use(it, a[0], line))
+            nb1 = rw.new_block(); head = rw.new_block(); done = rw.new_block()
+            new = 'std::vec::Vec::<T>::new'
+            B[bi]['term'] = mk_call(new, new, None, 'std::vec::Vec::<T>', 'new', [], va, nb1, span)
+            B[nb1]['term'] = mk_call(new, new, None, 'std::vec::Vec::<T>', 'new', [], vb, head, span)
+            o, some = N._emit_next(rw, head, it, span, done)
+            il = rw.new_local('?'); rl = rw.new_local('&?'); r = rw.new_local('bool')
+            B[some]['st'] += [_use(il, _mv(o, SOME0), line), _ref(rl, _pl(il), False, line)]
+            nxt = rw.new_block(); pa = rw.new_block(); pb = rw.new_block()
+            rw.goto(some, spl(cls[0], [_mv(rl)], _pl(r), nxt))
+            B[nxt]['term'] = {'k': 'switch', 'd': _mv(r), 'ts': [[0, pb]], 'else': pa}
+            N._emit_push(rw, pa, va, 'Vec', _cp(il), span, head)
+            N._emit_push(rw, pb, vb, 'Vec', _cp(il), span, head)
+            B[done]['st'].append(_agg(dst, 'tuple', [_mv(va), _mv(vb)], line=line))
+            rw.goto(done, after)
+        else:
+            continue
+        rw.changed = True
+        return True
+    return False
+
+
+def lnorm(ctx, body):
+    """the body with closure combinators rewritten as control flow (a new Body named `<fn>~`; `.orig`
+    is the original).  Identity when there is nothing to rewrite."""
+    if body is None: return None
+    cache = ctx.__dict__.setdefault('_pe_lnorm', {})
+    if body.name in cache: return cache[body.name]
+    rw = Rewriter(body.d); N = Normalizer(ctx.F)
+    for _ in range(40):
+        if not _lnorm_one(ctx.F, rw, N): break
+    if not rw.changed:
+        nb = body
+    else:
+        d = rw.d; d['fn'] = body.name + '~'
+        nb = Body(d); nb.facts = ctx.F
+    nb.orig = body
+    cache[body.name] = nb
+    return nb
+
+
+def fn_of(body):
+    o = getattr(body, 'orig', None)
+    return o.name if o is not None else body.name
+
+
+# =================================================================================================
+# 2. path-sensitive reachability
+# =================================================================================================
+VARIANT = (('Option::None', 0), ('Option::Some', 1), ('Result::Ok', 0), ('Result::Err', 1),
+           ('ControlFlow::Continue', 0), ('ControlFlow::Break', 1))
+# calls whose result has the same variant as their first argument
+SAME_VARIANT = re.compile(r'^std::option::Option::<.*>::(copied|cloned|as_ref|as_mut|as_deref|as_deref_mut|map|inspect)(::<.*>)?$|'
+                          r'^std::result::Result::<.*>::(as_ref|as_mut|map|map_err|inspect|inspect_err|copied|cloned)(::<.*>)?$')
+IS_VARIANT = {'is_some': ('Option', 1), 'is_none': ('Option', 0), 'is_ok': ('Result', 0), 'is_err': ('Result', 1)}
+
+
+def pkey(pl):
+    """env key of a place: derefs ignored, tuple fields kept, anything else untracked"""
+    ps = []
+    for p in pl['p']:
+        if p == '*': continue
+        if isinstance(p, dict) and 'f' in p and p.get('of') == 'tuple': ps.append(p['f']); continue
+        return None
+    return (pl['l'], tuple(ps))
+
+
+def _variant_of_adt(adt):
+    for suf, v in VARIANT:
+        if adt.endswith(suf): return v
+    return None
+
+
+def _kill(e, l):
+    for k in [k for k in e if k[0] == l]: del e[k]
+
+
+def _step_block(body, bi, e, untracked):
+    """transfer of block bi on env e (mutated); returns successors to follow"""
+    blk = body.blocks[bi]
+    for st in blk['st']:
+        if 'dst' not in st: continue
+        d = st['dst']; rv = st['rv']; k = rv['k']
+        dk = pkey(d)
+        if dk is None or d['l'] in untracked:
+            _kill(e, d['l']); continue
+        if dk[1]:
+            for kk in [kk for kk in e if kk[0] == dk[0] and kk[1][:len(dk[1])] == dk[1]]: del e[kk]
+        else:
+            _kill(e, d['l'])
+        if '*' in d['p']: continue
+        o = rv['ops'][0] if rv.get('ops') else None
+        if k == 'use':
+            if o['k'] == 'const':
+                if o['v'] in ('true', 'false'): e[dk] = 1 if o['v'] == 'true' else 0
+            elif o['k'] in ('copy', 'move'):
+                sk = pkey(o['pl'])
+                if sk is not None:
+                    for kk in [kk for kk in e if kk[0] == sk[0] and kk[1][:len(sk[1])] == sk[1]]:
+                        e[(dk[0], dk[1] + kk[1][len(sk[1]):])] = e[kk]
+        elif k == 'ref':
+            sk = pkey(rv['pl'])
+            if sk is not None and not rv.get('mut'):
+                for kk in [kk for kk in e if kk[0] == sk[0] and kk[1][:len(sk[1])] == sk[1]]:
+                    e[(dk[0], dk[1] + kk[1][len(sk[1]):])] = e[kk]
+        elif k == 'un' and rv['op'] == 'Not':
+            if o['k'] in ('copy', 'move'):
+                sk = pkey(o['pl'])
+                if sk in e and e[sk] in (0, 1) and body.locals[d['l']] == 'bool': e[dk] = 1 - e[sk]
+        elif k == 'discr':
+            sk = pkey(rv['pl'])
+            if sk in e: e[dk] = e[sk]
+        elif k == 'agg':
+            v = _variant_of_adt(rv['adt'])
+            if v is not None: e[dk] = v
+            elif rv['adt'] == 'tuple':
+                for i, o2 in enumerate(rv['ops']):
+                    if o2['k'] in ('copy', 'move'):
+                        sk = pkey(o2['pl'])
+                        if sk is not None:
+                            for kk in [kk for kk in e if kk[0] == sk[0] and kk[1][:len(sk[1])] == sk[1]]:
+                                e[(dk[0], dk[1] + (str(i),) + kk[1][len(sk[1]):])] = e[kk]
+                    elif o2['k'] == 'const' and o2['v'] in ('true', 'false'):
+                        e[(dk[0], dk[1] + (str(i),))] = 1 if o2['v'] == 'true' else 0
+    t = blk['term']
+    succs = body.succ(bi)
+    if t['k'] == 'call':
+        d = t['dst']; dk = pkey(d); nm = t['r'] or t['f']
+        a0 = t['args'][0] if t['args'] else None
+        ak = pkey(a0['pl']) if a0 is not None and a0['k'] in ('copy', 'move') else None
+        av = e.get(ak) if ak is not None else None
+        _kill(e, d['l'])
+        if dk is not None and not dk[1] and d['l'] not in untracked:
+            item = (t.get('ri') or {}).get('item')
+            if T.NOT_CALL.search(nm):
+                if av in (0, 1): e[dk] = 1 - av
+            elif T.TRY_BRANCH.search(nm):
+                if av is not None:
+                    is_opt = nm.startswith('<std::option::Option')
+                    e[dk] = (0 if av == 1 else 1) if is_opt else av      # Some -> Continue, None -> Break; Ok -> Continue, Err -> Break
+            elif 'FromResidual' in nm and item == 'from_residual':
+                if nm.startswith('<std::result::Result'): e[dk] = 1
+                elif nm.startswith('<std::option::Option'): e[dk] = 0
+            elif SAME_VARIANT.search(T.strip_generics_tail(nm)) or SAME_VARIANT.search(nm):
+                if av is not None: e[dk] = av
+            elif item in IS_VARIANT and re.match(r'^std::(option::Option|result::Result)::<', nm):
+                if av is not None: e[dk] = 1 if av == IS_VARIANT[item][1] else 0
+    elif t['k'] == 'switch' and t['d']['k'] != 'const':
+        sk = pkey(t['d']['pl'])
+        if sk in e:
+            m = {val: tg for val, tg in t['ts']}
+            succs = [m.get(e[sk], t['else'])]
+    return succs
+
+
+def walk(body, starts, stop=(), env0=None, avoid=()):
+    """blocks reachable from `starts` along paths consistent with what is known about enum / bool
+    locals (env0: {(local, tuple_fields): variant}).  `stop` blocks end a path (not included),
+    `avoid` blocks are not entered.
+    Returns (blocks, reached_stop)."""
+    untracked = T._mut_borrowed(body)
+    seen = set(); out = set(); hit = False
+    work = [(s, frozenset((env0 or {}).items())) for s in starts]
+    n = 0
+    while work:
+        bi, fe = work.pop()
+        if bi in stop: hit = True; continue
+        if bi in avoid: continue
+        if (bi, fe) in seen: continue
+        seen.add((bi, fe)); out.add(bi); n += 1
+        if n > 60000:
+            r = body.reach(list(starts), set(stop) | set(avoid))
+            return r, True
+        e = dict(fe)
+        succs = _step_block(body, bi, e, untracked)
+        fe2 = frozenset(e.items())
+        for s in succs:
+            if body.blocks[s]['cleanup']: continue
+            work.append((s, fe2))
+    return out, hit
+
+
+def reaches(body, starts, targets, env0=None):
+    r, _ = walk(body, starts, env0=env0)
+    return bool(r & set(targets))
+
+
+# ------------------------------------------------------------------------------- error flow
+ERR_ADAPTORS = re.compile(T.ERR_ADAPTORS.pattern + r'|Option::<.*>::transpose$|Result::<.*>::transpose$|Result::<.*>::inspect_err(::<.*>)?$')
+
+
+def _err_variant(body, local):
+    ty = body.locals[local].lstrip('&').replace('mut ', '')
+    if ty.startswith('std::result::Result'): return 1
+    return 0
+
+
+def errflow(body, local, depth=0):
+    """How is the Option/Result in `local` consumed?  ('ok'|'bad', how) findings.  Allowed: adaptor
+    chain ending in `?` whose Break arm reaches no Ok-exit (path-sensitively: an error that is
+    re-wrapped by an inlined helper / spliced closure and `?`-ed again in the caller is followed through
+    every level), a `match` whose None/Err arm reaches no Ok-exit, wrapping into Some(..)/Ok(..) of a
+    value that is consumed in an allowed way, or being returned."""
+    res = []
+    if depth > 8: return [('bad', 'adaptor chain too deep')]
+    if local == 0: return [('ok', 'returned')]
+    oks = body.strict_ok_exits()
+    uses = body.uses.get(local, ())
+    if not uses: return [('bad', 'result unused (dropped)')]
+    for kind, bi, x in uses:
+        if kind == 'call':
+            name = x.name
+            if T.TRY_BRANCH.search(name):
+                arms = T.try_arms(body, local)
+                if arms:
+                    if reaches(body, [arms[1]], oks, {(x.dst['l'], ()): 1}): res.append(('bad', 'Break arm of ? reaches an Ok-exit'))
+                    else: res.append(('ok', '?'))
+                else: res.append(('bad', 'Try::branch without switch'))
+            elif ERR_ADAPTORS.search(name):
+                sub = errflow(body, x.dst['l'], depth + 1)
+                res += [(k, '%s -> %s' % (x.item, h)) for k, h in sub]
+            elif T.ERR_BAD.search(name):
+                res.append(('bad', 'consumed by ' + x.item))
+            else:
+                res.append(('bad', 'passed to ' + name[:60]))
+        elif kind == 'stmt':
+            rv = x['rv']
+            if rv['k'] == 'discr':
+                nv = _err_variant(body, local)
+                for k3, b3, sw in body.uses.get(x['dst']['l'], ()):
+                    if k3 != 'switch': continue
+                    m = {v: t for v, t in sw['ts']}
+                    tgt = m.get(nv, sw['else'])
+                    if reaches(body, [tgt], oks, {(local, ()): nv}): res.append(('bad', 'None/Err side of match reaches an Ok-exit'))
+                    else: res.append(('ok', 'match: None/Err side reaches only Err-exits'))
+            elif rv['k'] == 'use' and x['dst']['p'] == []:
+                o = rv['ops'][0]
+                if o['k'] in ('copy', 'move') and o['pl']['l'] == local and o['pl']['p'] == []:
+                    if x['dst']['l'] == 0: res.append(('ok', 'returned'))
+                    else: res += errflow(body, x['dst']['l'], depth + 1)
+            elif rv['k'] == 'ref':
+                res += errflow(body, x['dst']['l'], depth + 1)
+            elif rv['k'] == 'agg' and x['dst']['p'] == [] and re.search(r'(Option::Some|Result::Ok|ControlFlow::Continue|ControlFlow::Break)$', rv['adt']):
+                # Some(result) / Break(result): the wrapped value is consumed further on (transpose()?, from_residual)
+                if x['dst']['l'] == 0: res.append(('ok', 'returned'))
+                else: res += [(k, 'wrapped -> ' + h) for k, h in errflow(body, x['dst']['l'], depth + 1)]
+    if not res: res.append(('bad', 'no recognised consumer'))
+    return res
+
+
+def errflow_calls(ctx, rule, body, calls, what):
+    for c in calls:
+        res = errflow(body, c.dst['l'])
+        ctx.counters['cfg_paths'] += 1
+        bad = [h for k, h in res if k == 'bad']
+        ctx.check(not bad, rule, 'T-ERRFLOW', fn_of(body), '%s: %s' % (what, '; '.join(sorted(set(bad)))), body.site(c.bb), consumers=[h for k, h in res])
+
+
+# =================================================================================================
+# 3. labels and effects
+# =================================================================================================
+# "is this id fixed?" probes of the state, all equivalent:
+#   state.entries.get(&id)           -> Option<&f64>   (Some = fixed)
+#   state.entries.contains_key(&id)  -> bool           (true = fixed)
+#   state.entries.get_key_value(&id) -> Option<(&u64, &f64)>
+STATE_PROBE = re.compile(r'HashMap::<u64, f64>::(get|contains_key|get_key_value)(::<.*>)?$')
+STATE_GET = r'HashMap::<u64, f64>::get'
+# value of a fixed id:  *state.entries.get(&id)  |  state.entries[&id]
+STATE_VALUE = re.compile(r'HashMap::<u64, f64>::get(::<.*>)?$|<std::collections::HashMap<u64, f64> as std::ops::Index<&u64>>::index$')
+
+
+def is_state_map(body, operand):
+    return ('v1::State', 'entries') in T.access_path(body, operand)[0]
+
+
+def _only_unwrapped(body, local, depth=0):
+    """the Option in `local` is never tested, only unwrapped (`.unwrap()`, `.expect(..)`, `.copied().unwrap()`): a value read"""
+    uses = body.uses.get(local, ())
+    if not uses or depth > 4: return False
+    for kind, bi, x in uses:
+        if kind != 'call': return False
+        if x.item in ('unwrap', 'expect', 'unwrap_unchecked') and 'Option' in x.name: continue
+        if x.item in ('copied', 'cloned', 'as_ref') and 'Option' in x.name and _only_unwrapped(body, x.dst['l'], depth + 1): continue
+        return False
+    return True
+
+
+def probes_in(body, blocks=None):
+    """state lookups whose outcome is tested (a lookup that is only unwrapped reads the value of an id known to be fixed)"""
+    out = []
+    for c in body.calls:
+        if STATE_PROBE.search(c.name) and c.args and is_state_map(body, c.args[0]):
+            if c.item == 'get' and _only_unwrapped(body, c.dst['l']): continue
+            if blocks is None or c.bb in blocks: out.append(c)
+    return out
+
+
+def coll_root(body, operand):
+    """the local collection an iterator / reference operand was made from (`v.iter()`, `&v`, `&mut v`,
+    `v.into_iter()`, also when v is a component of a freshly built tuple), else None"""
+    e = T.expr(body, operand)
+    for _ in range(12):
+        if e[0] == 'call' and e[3] and (ITER_TRANSPARENT.search(T.strip_generics_tail(e[2])) or T.TRANSPARENT.search(T.strip_generics_tail(e[2]))): e = e[3][0]; continue
+        break
+    if e[0] == 'call' and len(e) > 4:          # a local collection made by a call (`Vec::new()`, `x.collect()`, `f(..)`)
+        for c in body.calls:
+            if c.bb == e[4] and not c.dst['p']: return c.dst['l']
+    if e[0] == 'local' or (e[0] == 'place' and not e[2]):
+        return e[1] if e[1] > body.argc else None
+    return None
+
+
+def loop_items(body):
+    """local holding the `next()` result of a `for` loop -> the local collection it iterates"""
+    m = getattr(body, '_pe_loop_items', None)
+    if m is not None: return m
+    m = {}
+    for lo in T.for_loops(body):
+        c = lo[0]
+        root = coll_root(body, c.args[0])
+        if root is not None: m[c.dst['l']] = root
+    body._pe_loop_items = m
+    return m
+
+
+ITER_TRANSPARENT = re.compile(r'::(into_iter|iter|iter_mut|as_ref|as_mut|deref|deref_mut|as_slice|borrow)(::<.*>)?$')
+
+
+def label(body, e, _depth=0):
     e0 = T.strip_wrappers(e)
     if e0[0] == 'const': return 'const:' + e0[1]
-    # payload of a state lookup?
+    # value of a state lookup?
     x = e0
     while True:
-        if x[0] == 'call' and x[1] == 'get' and re.search(STATE_GET, x[2]):
-            return 'val[%s]' % label(body, x[3][1])
+        if x[0] == 'call' and STATE_VALUE.search(x[2]) and len(x[3]) > 1:
+            return 'val[%s]' % label(body, x[3][1], _depth + 1)
         if x[0] == 'proj' and not any('v1::' in a for a, f in x[2]): x = T.strip_wrappers(x[1]); continue
         break
     f = outer_field(e0)
     if f: return f
+    # the item of a loop over a local collection is labelled like the collection's elements
+    if _depth < 4:
+        x = e0
+        while x[0] == 'proj' and not any('v1::' in a for a, f in x[2]): x = T.strip_wrappers(x[1])
+        if x[0] == 'call' and x[1] == 'next' and len(x) > 4:
+            for c in body.calls:
+                if c.bb == x[4]:
+                    root = loop_items(body).get(c.dst['l'])
+                    if root is not None:
+                        pl = pushed_labels(body, root, _depth + 1)
+                        if len(pl) == 1: return next(iter(pl))
     if e0[0] in ('local', 'place'): return '_%d' % e0[1]
     return T.expr_str(e0, 3)
 
 
-def probe_of_place(body, pl, probes):
-    """which probe's Option does this place denote (directly or as a field of a tuple of probes)?"""
-    ex = T.strip_wrappers(T.expr(body, {'k': 'copy', 'pl': pl}, depth=8))
-    if ex[0] == 'call' and ex[1] == 'get' and len(ex) > 4:
-        for p in probes:
-            if p.bb == ex[4]: return p
-    return None
+VEC_PUSH = re.compile(r'Vec::<(u64|T)>::push$')
+
+
+def pushed_labels(body, vec_local, _depth=0):
+    out = set()
+    for c in body.calls:
+        if c.item == 'push' and VEC_PUSH.search(c.name) and T.access_path(body, c.args[0], transparent=T.TRANSPARENT_NOCLONE)[1] == vec_local:
+            out.add(label(body, T.expr(body, c.args[1]), _depth))
+    return out
 
 
 def outer_field(e):
@@ -41,31 +518,17 @@ def outer_field(e):
     return None
 
 
+def root_of(body, operand):
+    return T.access_path(body, operand, transparent=T.TRANSPARENT_NOCLONE)[1]
+
+
 def case_region(body, start, assignment, probes, stop, avoid=()):
-    """blocks reachable from `start` when probe i's Option has discriminant assignment[i] (1 = Some).
+    """blocks reachable from `start` when probe i's result is assignment[i] (1 = fixed).
     With `avoid`: returns None if a stop block is reachable without passing a block in `avoid`."""
-    seen = set(); work = [start]
-    while work:
-        bi = work.pop()
-        if bi in seen: continue
-        if bi in stop:
-            if avoid: return None
-            continue
-        if bi in avoid: continue
-        seen.add(bi)
-        t = body.blocks[bi]['term']
-        succs = body.succ(bi)
-        if t['k'] == 'switch' and t['d']['k'] != 'const':
-            for k2, b2, d in body.defs_of(t['d']['pl']['l']):
-                if k2 == 'stmt' and d['rv']['k'] == 'discr':
-                    p = probe_of_place(body, d['rv']['pl'], probes)
-                    if p is not None:
-                        v = assignment[probes.index(p)]
-                        m = {val: tg for val, tg in t['ts']}
-                        succs = [m.get(v, t['else'])]
-        for s in succs:
-            if not body.blocks[s]['cleanup']: work.append(s)
-    return seen
+    env0 = {(p.dst['l'], ()): a for p, a in zip(probes, assignment)}
+    r, hit = walk(body, [start], stop=set(stop), env0=env0, avoid=set(avoid))
+    if avoid: return None if hit else r
+    return r
 
 
 class _Eff(set):
@@ -76,8 +539,56 @@ class _Eff(set):
         if self.where is not None and self.cur is not None: self.where.setdefault(e, set()).add(self.cur)
 
 
-def effects_in(ctx, body, region, self_adt, where=None):
+SET_INSERT = re.compile(r'BTreeSet::<(u64|T)>::insert$')
+MAP_KV = r'BTreeMap::<(u64|std::vec::Vec<u64>|K), (f64|V)>'
+ZERO = ('const', '0f64')
+
+
+def _is_zero(e):
+    e = T.strip_wrappers(e)
+    return e[0] == 'const' and e[1] in ('0f64', '-0f64') or (e[0] == 'call' and e[1] == 'default' and not e[3])
+
+
+def entry_of(body, ex):
+    """for the expression of a `&mut f64` obtained from the entry API: (key expr, map operand expr, zero_default) or None.
+         m.entry(k).or_insert(0.0) | m.entry(k).or_default() | m.entry(k).or_insert_with(|| 0.0)"""
+    for x in T.expr_walk(ex):
+        if x[0] == 'call' and x[1] in ('or_insert', 'or_default', 'or_insert_with') and x[3]:
+            ent = [y for y in T.expr_walk(x[3][0]) if y[0] == 'call' and y[1] == 'entry']
+            if not ent: continue
+            zero = x[1] == 'or_default' or (x[1] == 'or_insert' and len(x[3]) > 1 and _is_zero(x[3][1]))
+            return ent[0][3][1], ent[0][3][0], zero
+    return None
+
+
+def old_value_of(body, ex):
+    """`m.get(&k).copied().unwrap_or(0.0)` / `.unwrap_or_default()` / `*m.get(&k).unwrap_or(&0.0)`: (key expr, map expr) or None"""
+    x = ex
+    for _ in range(6):
+        if x[0] == 'call' and x[1] in ('unwrap_or', 'unwrap_or_default', 'copied', 'cloned') and x[3]:
+            if x[1] == 'unwrap_or' and not (len(x[3]) > 1 and _is_zero(x[3][1])): return None
+            x = x[3][0]; continue
+        if x[0] == 'proj' and not any('v1::' in a for a, f in x[2]): x = x[1]; continue
+        break
+    if x[0] == 'call' and x[1] == 'get' and re.search(MAP_KV + r'::get', x[2]) and len(x[3]) > 1:
+        return x[3][1], x[3][0]
+    return None
+
+
+def effects_in(ctx, body, region, self_adt, where=None, maps=None, keys=None):
+    """effects performed in `region`:
+        ('acc', target, op, factors)   target (op)= product of factors; target is `self.<field>`, `acc:_N`
+                                       (a local accumulator) or `entry[<key label>]` (the map entry of a key)
+        ('set', 'entry[..]', factors)  the map entry of a key is overwritten
+        ('report', key)                key inserted into an id set
+        ('remove', field)              element removed from self.<field>
+        ('inc', 'index')               usize counter advanced by one
+        ('push', _N, key)              key pushed to the local Vec _N
+       `maps` collects the root locals of the maps that receive 'acc' / 'set' effects, `keys` the root
+       collection (if the key is one) of the key of each map effect."""
     eff = _Eff(where)
+    maps = maps if maps is not None else set()
+    keys = keys if keys is not None else {}
     for bi, st in body.stmts():
         if bi not in region: continue
         eff.cur = bi
@@ -87,8 +598,22 @@ def effects_in(ctx, body, region, self_adt, where=None):
             def same(o): return o['k'] in ('copy', 'move') and o['pl'] == d
             if same(a) or same(b):
                 other = b if same(a) else a
-                facs = sorted(label(body, f) for f in T.flatten(T.expr(body, other), 'Mul'))
-                eff.add(('acc', target_label(ctx, body, d), rv['op'], tuple(facs)))
+                facs = tuple(sorted(label(body, f) for f in T.flatten(T.expr(body, other), 'Mul')))
+                e_ = ('acc', target_label(ctx, body, d, maps=maps), rv['op'], facs)
+                eff.add(e_)
+                if e_[1].startswith('entry'):
+                    ent = entry_of(body, T.expr(body, {'k': 'copy', 'pl': d}, depth=10))
+                    if ent is not None: keys.setdefault(e_, set()).add(_key_root(body, ent[0]))
+        # accumulator updated through temporaries:  acc = tmp  where  tmp = acc (op) x   (e.g. a spliced `fold`)
+        if rv['k'] == 'use' and not d['p'] and body.locals[d['l']] == 'f64' and rv['ops'][0]['k'] in ('copy', 'move') and len(body.defs_of(d['l'])) > 1:
+            ex = T.arith(T.expr(body, rv['ops'][0]))
+            if ex[0] == 'bin' and ex[1] in ('Add', 'Mul'):
+                me = ('local', d['l'])
+                sides = [T.strip_wrappers(ex[2]), T.strip_wrappers(ex[3])]
+                if me in sides:
+                    other = sides[1] if sides[0] == me else sides[0]
+                    facs = tuple(sorted(label(body, f) for f in T.flatten(other, 'Mul')))
+                    eff.add(('acc', 'acc:_%d' % d['l'], ex[1], facs))
         if rv['k'] == 'bin' and rv['op'].startswith('Add') and rv.get('ty') == 'usize' and any(o['k'] == 'const' and o['v'] == '1_usize' for o in rv['ops']):
             eff.add(('inc', 'index'))
     for c in body.calls:
@@ -96,33 +621,317 @@ def effects_in(ctx, body, region, self_adt, where=None):
         eff.cur = c.bb
         m = T.ASSIGN_CALL.match(c.name)
         if m:
-            tgt = T.expr(body, c.args[0])
-            facs = sorted(label(body, f) for f in T.flatten(T.expr(body, c.args[1]), 'Mul'))
-            eff.add(('acc', target_label(ctx, body, None, c.args[0]), m.group(1), tuple(facs)))
-        elif c.item == 'insert' and 'BTreeSet::<u64>::insert' in c.name:
+            facs = tuple(sorted(label(body, f) for f in T.flatten(T.expr(body, c.args[1]), 'Mul')))
+            eff.add(('acc', target_label(ctx, body, None, c.args[0], maps=maps), m.group(1), facs))
+        elif c.item == 'insert' and SET_INSERT.search(c.name):
             eff.add(('report', label(body, T.expr(body, c.args[1]))))
+        elif c.item == 'insert' and re.search(MAP_KV + r'::insert$', c.name) and len(c.args) == 3:
+            # m.insert(k, m.get(&k).copied().unwrap_or(0.0) + v)  ==  *m.entry(k).or_insert(0.0) += v
+            key = label(body, T.expr(body, c.args[1])); mroot = root_of(body, c.args[0])
+            maps.add(mroot)
+            val = T.arith(T.expr(body, c.args[2]))
+            done = False
+            if val[0] == 'bin' and val[1] == 'Add':
+                for old, new in ((val[2], val[3]), (val[3], val[2])):
+                    ov = old_value_of(body, T.strip_wrappers(old))
+                    if ov is not None and label(body, ov[0]) == key:
+                        facs = tuple(sorted(label(body, f) for f in T.flatten(new, 'Mul')))
+                        e_ = ('acc', 'entry[%s]' % key, 'Add', facs); eff.add(e_); done = True
+                        keys.setdefault(e_, set()).add(coll_root(body, c.args[1])); break
+            if not done:
+                facs = tuple(sorted(label(body, f) for f in T.flatten(val, 'Mul')))
+                eff.add(('set', 'entry[%s]' % key, facs))
+        elif c.item == 'insert' and re.search(r'VacantEntry::<.*>::insert$', c.name):
+            # match m.entry(k) { Vacant(e) => { e.insert(v); } .. }  : the vacant half of  *entry.or_insert(0.0) += v
+            ent = [y for y in T.expr_walk(T.expr(body, c.args[0])) if y[0] == 'call' and y[1] == 'entry']
+            if ent:
+                facs = tuple(sorted(label(body, f) for f in T.flatten(T.expr(body, c.args[1]), 'Mul')))
+                eff.add(('acc-vacant', 'entry[%s]' % label(body, ent[0][3][1]), 'Add', facs))
         elif c.item in ('swap_remove', 'remove') and re.search(r'Vec::<', c.name):
             fs = [f for a, f in T.access_path(body, c.args[0])[0] if a.endswith(self_adt)]
             eff.add(('remove', fs[-1] if fs else '?'))
-        elif c.item == 'push' and 'Vec::<u64>::push' in c.name:
-            eff.add(('keep-id', label(body, T.expr(body, c.args[1]))))
+        elif c.item == 'push' and VEC_PUSH.search(c.name):
+            eff.add(('push', root_of(body, c.args[0]), label(body, T.expr(body, c.args[1]))))
     return eff
 
 
-def target_label(ctx, body, dst_place, operand=None):
-    if dst_place is not None:
-        fs = fields_of_place(dst_place)
-        named = [f for a, f in fs if 'v1::' in a]
-        if named: return 'self.' + named[-1]
-        l = dst_place['l']
-        if dst_place['p'] == []:
-            return 'acc:_%d' % l
-        # deref of a &mut f64 obtained from entry(key).or_insert / or_default
-        ex = T.expr(body, {'k': 'copy', 'pl': {'l': l, 'p': []}}, depth=8)
-    else:
-        ex = T.expr(body, operand, depth=8)
-        if ex[0] in ('local', 'place') and not (ex[0] == 'place' and ex[2]): return 'acc:_%d' % ex[1]
-    ent = [x for x in T.expr_walk(ex) if x[0] == 'call' and x[1] == 'entry']
-    if ent:
-        return 'entry[%s]' % label(body, ent[0][3][1])
+def target_label(ctx, body, dst_place, operand=None, maps=None):
+    """what an accumulating assignment writes to"""
+    op = {'k': 'copy', 'pl': dst_place} if dst_place is not None else operand
+    if dst_place is not None and dst_place['p'] == []: return 'acc:_%d' % dst_place['l']
+    fs, root, calls = T.access_path(body, op, transparent=T.TRANSPARENT_NOCLONE)
+    named = [f for a, f in fs if 'v1::' in a]
+    if named and root == 1: return 'self.' + named[-1]          # self.constant, also through `let Self { constant, .. } = self`
+    ex = T.expr(body, op, depth=10)
+    if ex[0] in ('local', 'place') and not (ex[0] == 'place' and ex[2]): return 'acc:_%d' % ex[1]
+    ent = entry_of(body, ex)
+    if ent is not None:
+        if maps is not None: maps.add(_key_root(body, ent[1]))
+        return ('entry[%s]' if ent[2] else 'entry-nonzero-default[%s]') % label(body, ent[0])
+    # `*occupied.get_mut() += v` : the occupied half of the entry idiom
+    for x in T.expr_walk(ex):
+        if x[0] == 'call' and x[1] in ('get_mut', 'into_mut') and 'OccupiedEntry' in x[2]:
+            e2 = [y for y in T.expr_walk(x) if y[0] == 'call' and y[1] == 'entry']
+            if e2:
+                if maps is not None: maps.add(_key_root(body, e2[0][3][0]))
+                return 'occupied[%s]' % label(body, e2[0][3][1])
+    if root is not None and root > body.argc and not named and dst_place is None: return 'acc:_%d' % root
     return T.expr_str(ex, 3)
+
+
+def _key_root(body, e):
+    """the local collection a key expression is (a clone of)"""
+    for _ in range(8):
+        if e[0] == 'call' and e[3] and T.TRANSPARENT.search(T.strip_generics_tail(e[2])): e = e[3][0]; continue
+        break
+    if e[0] == 'call' and e[1] == 'new' and len(e) > 4:
+        for c in body.calls:
+            if c.bb == e[4] and not c.dst['p']: return c.dst['l']
+    if e[0] == 'local' or (e[0] == 'place' and not e[2]): return e[1]
+    return None
+
+
+def combine_halves(eff, where):
+    """('acc-vacant', K, Add, f) on the vacant arm + ('acc', occupied[K], Add, f) on the occupied arm of one
+    `match m.entry(k)`  ==  ('acc', entry[K], Add, f)"""
+    for e in list(eff):
+        if e[0] == 'acc-vacant':
+            k = e[1][len('entry['):-1]
+            occ = ('acc', 'occupied[%s]' % k, e[2], e[3])
+            if occ in eff:
+                eff.discard(e); eff.discard(occ)
+                new = ('acc', e[1], e[2], e[3]); eff.add(new)
+                where[new] = where.get(e, set()) | where.get(occ, set())
+    return eff
+
+
+def table(ctx, body, probes, header, self_adt, rename=None, maps=None):
+    """case -> set of effects that every path of the case performs on its way back to the loop header
+    (an effect only some paths perform is listed as ('sometimes', ..))"""
+    start = probes[-1].target
+    tab = {}
+    for asg in itertools.product((1, 0), repeat=len(probes)):
+        reg = case_region(body, start, list(asg), probes, {header})
+        where = {}
+        eff0 = effects_in(ctx, body, reg, self_adt, where, maps)
+        combine_halves(eff0, where)
+        eff = set()
+        for e in eff0:
+            always = case_region(body, start, list(asg), probes, {header}, avoid=where.get(e, set())) is not None
+            eff.add(e if always else ('sometimes',) + e)
+        if rename: eff = {tuple(rename.get(x, x) if isinstance(x, str) else x for x in e) for e in eff}
+        tab[''.join('S' if a else 'N' for a in asg)] = eff
+        ctx.counters['cfg_paths'] += 1
+    return tab
+
+
+def check_table(ctx, rule, body, tab, want, site=None):
+    for case, w in want.items():
+        got = tab.get(case, set())
+        missing = sorted(map(str, w - got)); extra = sorted(map(str, got - w))
+        ctx.check(not missing and not extra, '%s/%s' % (rule, case), 'T-BRANCHFX', fn_of(body),
+                  'case %s (S = variable fixed, N = free): missing effects %s, unexpected effects %s' % (case, missing, extra), site or body.site(), effects=sorted(map(str, got)))
+        ctx.sample(dict(rule=rule, case=case, effects=sorted(map(str, got))))
+
+
+def loop_with(body, call):
+    cands = [(h, bl) for h, bl in body.loops().items() if call.bb in bl]
+    return min(cands, key=lambda x: len(x[1])) if cands else (None, set())
+
+
+# ------------------------------------------------------------------------------- index loops
+def index_loop_bound(ctx, body, blocks, header, vec_fields, self_adt):
+    """How does the loop over `blocks` decide to stop?  Equivalent idioms of "until the index reaches the
+    end of self.<vec>":
+        while i < v.len()            -> 'precise'
+        while i != v.len()           -> 'precise'
+        while let Some(x) = v.get(i) -> 'precise'
+        while i < n  with n a local whose value derives from v.len() (cached / decremented bound) -> 'derived'
+    returns 'precise' | 'derived' | None"""
+    best = None
+    for bi, st in body.stmts():
+        if bi not in blocks: continue
+        rv = st['rv']
+        if rv['k'] == 'bin' and rv['op'] in ('Lt', 'Ne') and rv.get('ty') == 'usize':
+            # the comparison must decide the loop exit
+            if not _exits_loop(body, st['dst']['l'], bi, blocks): continue
+            for o in rv['ops']:
+                if _len_of_self_vec(body, T.expr(body, o), vec_fields, self_adt): return 'precise'
+                if o['k'] in ('copy', 'move'):
+                    s = ctx.S.backslice(body, [o['pl']['l']])
+                    if any(c.item == 'len' and _self_vec(body, c.args[0], vec_fields, self_adt) for c in s.call_objs): best = 'derived'
+    for c in body.calls:
+        if c.bb in blocks and c.item == 'get' and re.search(r'slice::<impl \[.*\]>::get|Vec::<.*>::get', c.name) and _self_vec(body, c.args[0], vec_fields, self_adt):
+            for sb, m, els in T.option_arms(body, c.dst['l']):
+                none = m.get(0, els)
+                if none not in blocks: return 'precise'
+    return best
+
+
+def _exits_loop(body, cond_local, bb, blocks):
+    for g in T.guards_from_local(body, cond_local, bb):
+        for t in (g.true_bb, g.false_bb):
+            if t is not None and t not in blocks: return True
+    return False
+
+
+def _self_vec(body, operand, vec_fields, self_adt):
+    fs, root, calls = T.access_path(body, operand)
+    return root == 1 and any(a.endswith(self_adt) and f in vec_fields for a, f in fs)
+
+
+def _len_of_self_vec(body, ex, vec_fields, self_adt):
+    """len(..) whose receiver reaches self.<vec> through destructured references"""
+    for x in T.expr_calls(ex):
+        if x[1] == 'len' and len(x) > 4:
+            for c in body.calls:
+                if c.bb == x[4] and _self_vec(body, c.args[0], vec_fields, self_adt): return True
+    return False
+
+
+ELEMENT_ACCESS = ('index', 'index_mut', 'get', 'get_mut', 'swap_remove', 'remove')      # v[i] | v.get(i) | v.swap_remove(i) | v.remove(i)
+
+
+def element_indices(body, blocks, elem_re):
+    """index expressions used to read / remove elements of the vectors matching elem_re inside `blocks`"""
+    idx = set()
+    for c in body.calls:
+        if c.bb in blocks and c.item in ELEMENT_ACCESS and re.search(elem_re, c.name) and len(c.args) > 1:
+            idx.add(T.expr_str(T.expr(body, c.args[1])))
+    return idx
+
+
+# ------------------------------------------------------------------------------- small helpers
+def deep_fields(body, e):
+    return set(T.expr_fields(e))
+
+
+def only_on_some_side(ctx, body, bb, adt, field):
+    """block bb is reachable only through the Some arm of a test (`if let` / `match` / spliced `map_or`) on self.<field>"""
+    for sb, some, none in option_field_tests(body, adt, field):
+        if bb in body.reach([some]) and bb not in body.reach([none]): return True
+    return False
+
+
+def unmark(ctx):
+    """report the functions under their own names (lnorm bodies are called `<fn>~`)"""
+    for v in ctx.violations:
+        if '~' in v['fn']:
+            v['fn'] = v['fn'].replace('~', ''); v['key'] = '%s|%s|%s' % (v['rule'], v['fn'], v['detail'])
+    for i in ctx.instances:
+        if '~' in i.get('fn', ''): i['fn'] = i['fn'].replace('~', '')
+
+
+def acc_defs(body, local):
+    """definitions of an f64 accumulator: (inits [(expr, bb)], updates [(op, other expr, bb)]);
+    `acc = acc op x`, `acc op= x` through `&mut acc`, and `tmp = acc op x; acc = tmp` are updates"""
+    init = []; ups = []
+    for k, bi, d in body.defs_of(local):
+        if k != 'stmt' or d['dst']['p']:
+            if k == 'call': init.append((('call', '?', d['r'] or d['f'], []), bi))
+            continue
+        rv = d['rv']
+        ex = T.arith(T._rv_expr(body, rv))
+        if ex[0] == 'bin' and ex[1] in ('Add', 'Sub', 'Mul', 'Div'):
+            me = [('local', local), ('place', local, [])]
+            a, b2 = T.strip_wrappers(ex[2]), T.strip_wrappers(ex[3])
+            if a in me: ups.append((ex[1], b2, bi)); continue
+            if b2 in me: ups.append((ex[1], a, bi)); continue
+        init.append((ex, bi))
+    refs = set()
+    for bi, st in body.stmts():
+        rv = st['rv']
+        if rv['k'] == 'ref' and rv.get('mut') and rv['pl'] == {'l': local, 'p': []} and not st['dst']['p']: refs.add(st['dst']['l'])
+    for c in body.calls:
+        m = T.ASSIGN_CALL.match(c.name)
+        if m and c.arg_local(0) in refs: ups.append((m.group(1), T.expr(body, c.args[1]), c.bb))
+    return init, ups
+
+
+class PolyInfo:
+    """What happens to the ids of one monomial and to its value (Polynomial::partial_evaluate).
+    Ids may be handled where they are probed, or pushed to a local vector that is processed later:
+        for id in ids { if fixed { value *= v; used.insert(id) } else { rest.push(id) } }
+     == let (fixed, rest) = ids.partition(is_fixed); value = fixed.fold(c, |a, id| a * state[id]); used.extend(fixed)
+    so the effects on a vector (loops over all its elements, `extend` of the id set with it, use as the key of
+    the result map) count as effects on every id pushed to it."""
+
+    def __init__(self, ctx, b, outer):
+        self.ctx = ctx; self.b = b; self.outer = outer
+        blocks = set(outer[4])
+        self.vec_fx = {}           # vec local -> set of effects applied to each of its elements
+        self.kept_vecs = set()
+        self.value_local = None; self.value_init = None
+        self.key_vec = None; self.adds_value = False; self.acc_blocks = set(); self.map_local = None
+        loops = [lo for lo in T.for_loops(b) if set(lo[4]) < blocks]
+        items = loop_items(b)
+        # ---- all effects of the monomial loop's body
+        where = {}; maps = set(); keys = {}
+        alleff = effects_in(ctx, b, blocks, 'v1::Polynomial', where, maps, keys)
+        vecs = {e[1] for e in alleff if e[0] == 'push'}
+        # the value accumulator: the local that is multiplied by the fixed values
+        cand = {e[1] for e in alleff if e[0] == 'acc' and e[2] == 'Mul' and e[1].startswith('acc:_') and any(f.startswith('val[') for f in e[3])}
+        if len(cand) == 1:
+            self.value_local = int(next(iter(cand))[5:])
+            init, ups = acc_defs(b, self.value_local)
+            labs = {outer_field(x) for x, bi in init}
+            self.value_init = next(iter(labs)) if len(labs) == 1 else None
+        vlab = '_%d' % self.value_local if self.value_local is not None else None
+        # ---- per vector: what is done to all of its elements
+        for v in vecs:
+            fx = set()
+            for lo in loops:
+                if items.get(lo[0].dst['l']) != v: continue
+                reg, _ = walk(b, [lo[2]], stop={lo[1]})
+                w2 = {}
+                for e in effects_in(ctx, b, reg, 'v1::Polynomial', w2):
+                    always = not walk(b, [lo[2]], stop={lo[1]}, avoid=w2.get(e, set()))[1]
+                    restr = sorted({x.item for x in ctx.S.slice_operand(b, lo[0].args[0]).call_objs if x.item in RESTRICTING and 'Iterator' in (x.trait or '')})
+                    fx.add(e if always and not restr else ('sometimes',) + e)
+            for c in b.calls:
+                if c.bb in blocks and c.item == 'extend' and re.search(r'BTreeSet<u64> as std::iter::Extend<u64>>::extend', c.name) and coll_root(b, c.args[1]) == v:
+                    for lab in pushed_labels(b, v): fx.add(('report', lab))
+            # the vector must hold exactly the pushed ids when it is used: no other mutation of it
+            tampered = [c for c in b.calls if c.bb in blocks and not (c.item == 'push' and VEC_PUSH.search(c.name)) and T.MUT_CALL.search(c.name)
+                        and c.args and root_of(b, c.args[0]) == v and '&mut' in b.locals[c.arg_local(0) or 0]]
+            if tampered: fx = {e if e[0] == 'sometimes' else ('sometimes',) + e for e in fx}
+            self.vec_fx[v] = fx
+        # ---- the result map: entry keyed by a vector, value += monomial value
+        inner_blocks = set().union(*[set(lo[4]) for lo in loops]) if loops else set()
+        for e in alleff:
+            if e[0] == 'acc' and e[1].startswith('entry[') and e[2] == 'Add' and not (where.get(e, set()) & inner_blocks):
+                kr = {k for k in keys.get(e, set()) if k is not None}
+                if len(kr) == 1 and next(iter(kr)) in vecs:
+                    self.key_vec = next(iter(kr)); self.acc_blocks |= where.get(e, set())
+                    if e[3] == (vlab,): self.adds_value = True
+        if self.key_vec is not None:
+            self.kept_vecs.add(self.key_vec)
+            for lab in pushed_labels(b, self.key_vec): self.vec_fx[self.key_vec].add(('keep-id', lab))
+        self.map_local = next(iter(maps)) if len(maps) == 1 else None
+        # the entry may be dropped again instead of written when the new sum vanishes:
+        #   if sum.abs() <= EPSILON { m.remove(&k) } else { m.insert(k, sum) }   ==   *m.entry(k).or_default() += v; if it.abs() <= EPSILON { m.remove(&k) }
+        for c in b.calls:
+            if c.bb in self.acc_blocks and c.item == 'insert' and len(c.args) == 3:
+                val = T.expr(b, c.args[2])
+                for bi, st in float_cmp_sites(b, ('Le', 'Lt')):
+                    if bi in blocks and any(o['k'] == 'const' and 'EPSILON' in o['v'] for o in st['rv']['ops']):
+                        oth = [o for o in st['rv']['ops'] if o['k'] != 'const']
+                        ax = T.strip_wrappers(T.expr(b, oth[0])) if oth else None
+                        if ax is not None and ax[0] == 'call' and ax[1] == 'abs' and ax[3] and T.strip_wrappers(ax[3][0]) == T.strip_wrappers(val):
+                            for g in T.guards_from_local(b, st['dst']['l'], bi):
+                                rm = [x for x in b.calls if x.item == 'remove' and 'BTreeMap' in x.name and g.true_bb is not None and x.bb in b.reach([g.true_bb], {outer[1]})
+                                      and coll_root(b, x.args[1]) == self.key_vec and root_of(b, x.args[0]) == self.map_local]
+                                if rm and c.bb not in b.reach([g.true_bb], {outer[1]}): self.acc_blocks.add(g.true_bb)
+
+    def resolve(self, eff):
+        out = set()
+        for e in eff:
+            some = e[0] == 'sometimes'
+            x = e[1:] if some else e
+            if x[0] == 'push':
+                for d in self.vec_fx.get(x[1], {('push', x[1], x[2])}):
+                    out.add(d if not some or d[0] == 'sometimes' else ('sometimes',) + d)
+            else:
+                out.add(e)
+        ren = {'acc:_%d' % self.value_local: 'value'} if self.value_local is not None else {}
+        return {tuple(ren.get(y, y) if isinstance(y, str) else y for y in e) for e in out}
